@@ -146,6 +146,19 @@ pub fn observe(c: &Cache, universe: u32) -> (String, String, String) {
         let mut vr: Vec<u64> = c.values().rev().map(|v| v.tok).collect(); vr.reverse();
         if kr != keys { api.push("keys_rev"); }
         if vr != vals { api.push("values_rev"); }
+        // trait methods with default implementations (count, last, nth, size_hint, fold, rev) must agree with the walk too
+        if c.iter().count() != nodes.len() || c.keys().count() != nodes.len() || c.values().rev().count() != nodes.len() { api.push("iter_count"); }
+        if c.iter().last().map(|(k, v)| (k.id.0, k.tok, v.tok)) != lru_first.last().copied() || c.iter().rev().last().map(|(k, v)| (k.id.0, k.tok, v.tok)) != lru_first.first().copied() { api.push("iter_last"); }
+        for n in [0usize, 1, 2, nodes.len().saturating_sub(1), nodes.len()] {
+            if c.iter().nth(n).map(|(k, v)| (k.id.0, k.tok, v.tok)) != lru_first.get(n).copied() { api.push("iter_nth"); }
+            if c.keys().nth_back(n).map(|k| k.tok) != lru_first.iter().rev().nth(n).map(|x| x.1) { api.push("iter_nth"); }
+            if c.values().skip(n).next().map(|v| v.tok) != lru_first.get(n).map(|x| x.2) { api.push("iter_nth"); }
+        }
+        { let (lo, hi) = c.iter().size_hint(); if lo > nodes.len() || hi.map_or(false, |h| h < nodes.len()) { api.push("iter_size_hint"); } }
+        { let mut it = c.iter(); it.next(); it.next_back(); let (lo, hi) = it.size_hint(); let left = nodes.len().saturating_sub(2); if lo > left || hi.map_or(false, |h| h < left) { api.push("iter_size_hint"); } }
+        if c.iter().step_by(2).map(|(k, _)| k.tok).collect::<Vec<_>>() != lru_first.iter().step_by(2).map(|x| x.1).collect::<Vec<_>>() { api.push("iter_nth"); }
+        if c.iter().fold(0u64, |a, (k, _)| a.wrapping_mul(31).wrapping_add(k.tok)) != lru_first.iter().fold(0u64, |a, x| a.wrapping_mul(31).wrapping_add(x.1)) { api.push("iter_fold"); }
+        if c.iter().rfold(0u64, |a, (k, _)| a.wrapping_mul(31).wrapping_add(k.tok)) != lru_first.iter().rfold(0u64, |a, x| a.wrapping_mul(31).wrapping_add(x.1)) { api.push("iter_fold"); }
         if c.len() != nodes.len() || c.len() != g.len { api.push("len"); }
         if c.is_empty() != nodes.is_empty() { api.push("is_empty"); }
         if c.current_size() != g.current_size || c.max_size() != g.max_size || c.capacity() != g.capacity { api.push("scalars"); }
@@ -187,22 +200,42 @@ pub struct StepOut { pub res: String, pub visits: String, pub dropped: Vec<u64>,
 /// F = next(), B = next_back(): the result is reported. f / b = the same step with the result discarded at once and not
 /// reported; a run of k lower-case letters followed by the upper-case letter of the same direction is executed as ONE call
 /// of nth(k) / nth_back(k) (what skip and step_by use), which must behave like those k+1 single steps.
-pub fn run_pat<I: DoubleEndedIterator>(it: &mut I, pat: &str, f: &mut dyn FnMut(Option<I::Item>)) {
+/// A run l..lL that covers exactly what is left is executed as last(), a final run c..c that covers exactly what is left
+/// as count(): they must behave like the single front steps they stand for (the model reads l as f, L as F, c as f).
+/// `len` = number of entries the iterator started with.
+pub fn run_pat<I: DoubleEndedIterator>(it: &mut I, pat: &str, len: usize, f: &mut dyn FnMut(Option<I::Item>)) {
     let cs: Vec<char> = pat.chars().collect();
     let mut i = 0;
+    let mut used = 0usize;
     while i < cs.len() {
         let ch = cs[i];
-        if ch == 'F' { f(it.next()); i += 1; continue; }
-        if ch == 'B' { f(it.next_back()); i += 1; continue; }
-        let up = ch.to_ascii_uppercase();
+        let left = len.saturating_sub(used);
+        if ch == 'F' { f(it.next()); i += 1; used += 1; continue; }
+        if ch == 'B' { f(it.next_back()); i += 1; used += 1; continue; }
+        if ch == 'L' { if left == 1 { f(it.by_ref().last()); } else { f(it.next()); } i += 1; used += 1; continue; }
         let mut j = i; while j < cs.len() && cs[j] == ch { j += 1; }
-        if j < cs.len() && cs[j] == up {
-            let k = j - i;
-            f(if up == 'F' { it.nth(k) } else { it.nth_back(k) });
-            i = j + 1;
-        } else {
-            for _ in i..j { if up == 'F' { drop(it.next()); } else { drop(it.next_back()); } }
-            i = j;
+        let k = j - i;
+        match ch {
+            'l' if j < cs.len() && cs[j] == 'L' => {
+                if k + 1 == left { f(it.by_ref().last()); } else { f(it.nth(k)); }
+                used += k + 1; i = j + 1;
+            }
+            'c' => {
+                if k == left && j == cs.len() { let n = it.by_ref().count(); if n != k { f(None); f(None); f(None); } }
+                else { for _ in 0..k { drop(it.next()); } }
+                used += k; i = j;
+            }
+            'f' | 'b' | 'l' => {
+                let up = if ch == 'b' { 'B' } else { 'F' };
+                if ch != 'l' && j < cs.len() && cs[j] == up {
+                    f(if up == 'F' { it.nth(k) } else { it.nth_back(k) });
+                    used += k + 1; i = j + 1;
+                } else {
+                    for _ in 0..k { if up == 'F' { drop(it.next()); } else { drop(it.next_back()); } }
+                    used += k; i = j;
+                }
+            }
+            _ => { i += 1; }
         }
     }
 }
@@ -233,14 +266,14 @@ pub fn exec(w: &mut World, slot: usize, op: &Op) -> StepOut {
                     obs_slot = None;
                     let mut items = String::new();
                     match kind {
-                        0 => { let mut it = c.into_iter();
-                               run_pat(&mut it, pat, &mut |x| match x { None => items.push_str("none,"), Some((k, v)) => { write!(items, "{},", kvs(&k, &v)).unwrap(); std::mem::forget((k, v)); } });
+                        0 => { let n0 = c.len(); let mut it = c.into_iter();
+                               run_pat(&mut it, pat, n0, &mut |x| match x { None => items.push_str("none,"), Some((k, v)) => { write!(items, "{},", kvs(&k, &v)).unwrap(); std::mem::forget((k, v)); } });
                                if *forget { std::mem::forget(it); } }
-                        1 => { let mut it = c.into_keys();
-                               run_pat(&mut it, pat, &mut |x| match x { None => items.push_str("none,"), Some(k) => { write!(items, "{},", ks(&k)).unwrap(); std::mem::forget(k); } });
+                        1 => { let n0 = c.len(); let mut it = c.into_keys();
+                               run_pat(&mut it, pat, n0, &mut |x| match x { None => items.push_str("none,"), Some(k) => { write!(items, "{},", ks(&k)).unwrap(); std::mem::forget(k); } });
                                if *forget { std::mem::forget(it); } }
-                        _ => { let mut it = c.into_values();
-                               run_pat(&mut it, pat, &mut |x| match x { None => items.push_str("none,"), Some(v) => { write!(items, "{},", vsk(&v)).unwrap(); std::mem::forget(v); } });
+                        _ => { let n0 = c.len(); let mut it = c.into_values();
+                               run_pat(&mut it, pat, n0, &mut |x| match x { None => items.push_str("none,"), Some(v) => { write!(items, "{},", vsk(&v)).unwrap(); std::mem::forget(v); } });
                                if *forget { std::mem::forget(it); } }
                     }
                     return format!("items:{}", items);
@@ -297,16 +330,17 @@ pub fn exec(w: &mut World, slot: usize, op: &Op) -> StepOut {
                 Iter(kind, pat) => {
                     let mut items = String::new();
                     match kind {
-                        0 => { let mut it = c.iter(); run_pat(&mut it, pat, &mut |x| match x { None => items.push_str("none,"), Some((k, v)) => write!(items, "{},", kvs(k, v)).unwrap() }); }
-                        1 => { let mut it = c.keys(); run_pat(&mut it, pat, &mut |x| match x { None => items.push_str("none,"), Some(k) => write!(items, "{},", ks(k)).unwrap() }); }
-                        _ => { let mut it = c.values(); run_pat(&mut it, pat, &mut |x| match x { None => items.push_str("none,"), Some(v) => write!(items, "{},", vsk(v)).unwrap() }); }
+                        0 => { let mut it = c.iter(); run_pat(&mut it, pat, c.len(), &mut |x| match x { None => items.push_str("none,"), Some((k, v)) => write!(items, "{},", kvs(k, v)).unwrap() }); }
+                        1 => { let mut it = c.keys(); run_pat(&mut it, pat, c.len(), &mut |x| match x { None => items.push_str("none,"), Some(k) => write!(items, "{},", ks(k)).unwrap() }); }
+                        _ => { let mut it = c.values(); run_pat(&mut it, pat, c.len(), &mut |x| match x { None => items.push_str("none,"), Some(v) => write!(items, "{},", vsk(v)).unwrap() }); }
                     }
                     format!("items:{}", items)
                 }
                 Drain(pat, forget) => {
                     let mut items = String::new();
+                    let n0 = c.len();
                     let mut d = c.drain();
-                    run_pat(&mut d, pat, &mut |x| match x { None => items.push_str("none,"), Some((k, v)) => { write!(items, "{},", kvs(&k, &v)).unwrap(); std::mem::forget((k, v)); } });
+                    run_pat(&mut d, pat, n0, &mut |x| match x { None => items.push_str("none,"), Some((k, v)) => { write!(items, "{},", kvs(&k, &v)).unwrap(); std::mem::forget((k, v)); } });
                     if *forget { std::mem::forget(d); }
                     format!("items:{}", items)
                 }
@@ -406,7 +440,13 @@ pub fn finish(w: &mut World, out: &mut impl std::io::Write, leak_rest: bool) {
 
 pub fn rand_pat(rng: &mut Rng, len_hint: usize) -> String {
     let n = match rng.below(4) { 0 => rng.below(3), 1 => len_hint as u64 + rng.below(4), _ => rng.below(len_hint as u64 + 3) };
-    (0..n).map(|_| match rng.below(10) { 0 => 'f', 1 => 'b', x if x % 2 == 0 => 'F', _ => 'B' }).collect()
+    let mut p: String = (0..n).map(|_| match rng.below(10) { 0 => 'f', 1 => 'b', x if x % 2 == 0 => 'F', _ => 'B' }).collect();
+    // sometimes finish with last() or count() over exactly what is left
+    let left = len_hint.saturating_sub(p.len());
+    if left >= 1 && left <= 40 {
+        match rng.below(12) { 0 => { for _ in 1..left { p.push('l'); } p.push('L'); }, 1 => { for _ in 0..left { p.push('c'); } }, _ => {} }
+    }
+    p
 }
 
 pub fn gen_trace(seed: u64, t: u64, steps: usize, profile: &str, out: &mut impl std::io::Write) {
